@@ -1,5 +1,6 @@
 """serde round trip (C20): impl inventory over the type graph of Message, attribute inventory, hand-written impls."""
 import re
+import textrules
 from terms import FA, show, mk, ty_of, is_const, const_val, T, subterms
 from facts import callee_of, ty_str
 import libmodel
@@ -261,6 +262,10 @@ def rule_handwritten(prog, res):
         ok = ok and not adaptors
         if not ok:
             ok = _delegates_to_from(v, FA(v, prog), "<util::array_string::ArrayString<N> as core::convert::From<&str>>::from")
+        if not ok:
+            # the same loop in another spelling (try_for_each / match on the result, possibly through an inlined helper): C17's prefix-loop rule
+            okp, dp, ntp = textrules.prefix_loop(prog, v, "util::array_string::ArrayString::<N>::try_push")
+            ok = okp and any(c == "core::str::<impl str>::chars" for c in calls)
         res.ob("Z-vis", "ArrayString visitor | pushes chars() until one does not fit (the longest fitting prefix; everything for a serialised value)", ok, str(calls), v.loc)
     # both deserialize fns go through deserialize_str with their visitor
     for name, vis in (("util::Df88591String<N>", "Str88591Visitor"), ("util::array_string::ArrayString<N>", "ArrayStringVisitor")):
